@@ -981,8 +981,156 @@ func asciiConstString(v ssa.Value, depth int) bool {
 			}
 		}
 		return n > 0
+	case *ssa.Extract:
+		// one result of a module function with several results (`open, close := brackets(kind)`)
+		if call, ok := x.Tuple.(*ssa.Call); ok {
+			cal := call.Call.StaticCallee()
+			if cal == nil || cal.Blocks == nil || !inModule(cal) {
+				return false
+			}
+			n := 0
+			for _, b := range cal.Blocks {
+				for _, ins := range b.Instrs {
+					if r, ok := ins.(*ssa.Return); ok && x.Index < len(r.Results) {
+						n++
+						if !asciiConstString(unspillResult(r.Results[x.Index], b), depth+1) {
+							return false
+						}
+					}
+				}
+			}
+			return n > 0
+		}
+		// the value of a lookup in a constant table
+		if lk, ok := x.Tuple.(*ssa.Lookup); ok && x.Index == 0 {
+			return asciiConstTable(lk.X)
+		}
+	case *ssa.Lookup:
+		return asciiConstTable(x.X)
+	case *ssa.Field:
+		// a string field of a table entry
+		switch y := x.X.(type) {
+		case *ssa.Lookup:
+			return asciiConstTable(y.X)
+		case *ssa.Extract:
+			if lk, ok := y.Tuple.(*ssa.Lookup); ok {
+				return asciiConstTable(lk.X)
+			}
+		case *ssa.UnOp:
+			if y.Op == token.MUL {
+				if ia, ok := y.X.(*ssa.IndexAddr); ok {
+					return asciiConstTable(ia.X)
+				}
+			}
+		}
+	case *ssa.UnOp:
+		if x.Op == token.MUL {
+			// element (or a field of an element) of a constant table held in an array/slice
+			a := x.X
+			if fa, ok := a.(*ssa.FieldAddr); ok {
+				a = fa.X
+			}
+			if ia, ok := a.(*ssa.IndexAddr); ok {
+				return asciiConstTable(ia.X)
+			}
+		}
 	}
 	return false
+}
+
+// asciiConstTable: the map / array / slice value is a package-level table that only its initialiser writes and
+// every string constant stored into it is ASCII.
+func asciiConstTable(tbl ssa.Value) bool {
+	ld, ok := tbl.(*ssa.UnOp)
+	var g *ssa.Global
+	if ok && ld.Op == token.MUL {
+		g, _ = ld.X.(*ssa.Global)
+	}
+	if g == nil {
+		g, _ = tbl.(*ssa.Global) // &table for arrays
+	}
+	if g == nil || g.Pkg == nil {
+		return false
+	}
+	initFn := g.Pkg.Func("init")
+	if initFn == nil {
+		return false
+	}
+	// no writer outside the initialiser
+	for _, m := range g.Pkg.Members {
+		f, ok := m.(*ssa.Function)
+		if !ok || f == initFn {
+			continue
+		}
+		for _, fn := range append([]*ssa.Function{f}, f.AnonFuncs...) {
+			for _, b := range fn.Blocks {
+				for _, ins := range b.Instrs {
+					switch x := ins.(type) {
+					case *ssa.Store:
+						if x.Addr == ssa.Value(g) {
+							return false
+						}
+					case *ssa.MapUpdate:
+						if l2, ok := x.Map.(*ssa.UnOp); ok && l2.Op == token.MUL && l2.X == ssa.Value(g) {
+							return false
+						}
+					}
+				}
+			}
+		}
+	}
+	// every string constant the initialiser handles while building this table is ASCII: the strings stored into
+	// the value that ends up in g (map updates on it, stores below it)
+	var root ssa.Value
+	for _, b := range initFn.Blocks {
+		for _, ins := range b.Instrs {
+			if st, ok := ins.(*ssa.Store); ok && st.Addr == ssa.Value(g) {
+				root = st.Val
+			}
+		}
+	}
+	n := 0
+	okAll := true
+	checkVal := func(v ssa.Value) {
+		for w := range backSlice(v) {
+			if k, ok := w.(*ssa.Const); ok && k.Value != nil && k.Value.Kind() == constant.String {
+				n++
+				for _, r := range constant.StringVal(k.Value) {
+					if r >= 0x80 {
+						okAll = false
+					}
+				}
+			}
+		}
+	}
+	for _, b := range initFn.Blocks {
+		for _, ins := range b.Instrs {
+			switch x := ins.(type) {
+			case *ssa.MapUpdate:
+				if root != nil && x.Map == root {
+					checkVal(x.Value)
+				}
+			case *ssa.Store:
+				// array/struct tables are initialised in place: stores below &g
+				a := x.Addr
+				for {
+					switch y := a.(type) {
+					case *ssa.FieldAddr:
+						a = y.X
+						continue
+					case *ssa.IndexAddr:
+						a = y.X
+						continue
+					}
+					break
+				}
+				if a == ssa.Value(g) {
+					checkVal(x.Val)
+				}
+			}
+		}
+	}
+	return n > 0 && okAll
 }
 
 // ruleLoadErrRange (C08-LOADERR): a diagnostic that takes its range from an include.LoadError is published for
